@@ -38,7 +38,22 @@ def _parent_mode(evs):
     return None
 
 
+def _mc(run):
+    """algorithm layer: copy.go's per-entry decision with deferred parent directories, against the reference and the filtered walk"""
+    from vlib import Inconclusive
+    for cfg, lab in (("CopyFilterMC.cfg", "single patterns <= 3 segments, include list"), ("CopyFilterMC_exc.cfg", "single patterns <= 3 segments, exclude list"),
+                     ("CopyFilterMC_pairs.cfg", "all lists of <= 2 patterns of <= 2 segments, include list"),
+                     ("CopyFilterMC_pairs_exc.cfg", "all lists of <= 2 patterns of <= 2 segments, exclude list")):
+        run.tlc_mc("CopyFilterMC", cfg, label="alg/copy with include / exclude: written set = reference (naive verdicts), only the matcher diverges, written set = filtered walk algorithm, "
+                   "deferred directories only on demand, existing destination directories left alone; " + lab)
+    r = run.tlc_mc("CopyFilterMC", "CopyFilterMC_existing.cfg", label="sanity: a deferred directory that already exists in the destination counts as included (seeded variant) must be rejected", expect_error=True)
+    if "Invariant ExistingLeftAlone is violated" not in r["out"]:
+        raise Inconclusive("CopyFilterMC sanity configuration was not rejected: the model is vacuous")
+
+
 def check(run):
+    run.build()
+    _mc(run)
     return copyfam.run(run, "C16", ["filter"], PFX, ASSUME, [
         ("add a directory that neither matches nor has a selected descendant", _extra_dir, 0)], sig=_sig)
 
